@@ -53,6 +53,12 @@ func VerifC13MsgSource(n int) {
 	verif_assume(w.rcv.RegisterChainKey(w.ctx, w.g, w.sndDev, w.enc) == nil)
 	canon := w.log.Values().Slice()
 	verif_assume(len(canon) == n)
+	// the store has processed its log (the consumer loop opens every message once, in counter order for one sender, and
+	// the message keys are then found by entry id): a listing re-opens them in whatever order it is asked for
+	for _, e := range canon {
+		_, err := w.store.openMessage(w.ctx, e)
+		verif_assume(err == nil)
+	}
 	verif_logPermute(w.log)
 	reverse := verif_anyBool("reverse")
 	ch, err := w.store.ListEvents(w.ctx, nil, nil, reverse)
